@@ -8,6 +8,7 @@ package main
 // with the configuration read from the recording.
 
 import (
+	"encoding/json"
 	"flag"
 	"fmt"
 	"math/rand"
@@ -215,6 +216,7 @@ func runConv(args []string) error {
 	shard := fs.Int("shard", 0, "this shard")
 	shards := fs.Int("shards", 1, "number of shards")
 	dir := fs.String("dir", "", "scratch directory")
+	in := fs.String("in", "", "JSON file with the behaviours TLC generated (ConvGen): replayed instead of the enumeration")
 	if err := fs.Parse(args); err != nil {
 		return err
 	}
@@ -236,6 +238,29 @@ func runConv(args []string) error {
 	installGoroutineHooks()
 	ccs := convChains()
 	cc := ccs[*chainIdx%len(ccs)]
+	if *in != "" {
+		raw, err := os.ReadFile(*in)
+		if err != nil {
+			return err
+		}
+		var behaviours [][]struct{ C, Mt, Sid string }
+		if err := json.Unmarshal(raw, &behaviours); err != nil {
+			return err
+		}
+		for x, b := range behaviours {
+			if x%*shards != *shard {
+				continue
+			}
+			var letters []convLetter
+			for _, m := range b {
+				letters = append(letters, convLetter{m.C, m.Mt, m.Sid})
+			}
+			if err := runConvScenario(t, *dir, x, cc, letters, rand.New(rand.NewSource(*seed*7+int64(x)))); err != nil {
+				return err
+			}
+		}
+		return nil
+	}
 	alpha := convAlphabet(*reduced)
 	total := 1
 	for i := 0; i < *depth; i++ {
